@@ -118,7 +118,8 @@ func (i *interpreter) newTimerLike(typeName string, kind string, d value) value 
 	s := zero(tp).(structure)
 	ch := make(chan value)
 	s[fieldIndex(tp, "C")] = ch
-	i.chanKinds[ch] = &chanModel{kind: kind, period: i.durationArg(d, "timer duration")}
+	i.path.base()
+	i.chanKinds[ch] = &chanModel{kind: kind, period: i.durationArg(d, "timer duration"), created: i.path.clockAdv}
 	v := value(s)
 	return &v
 }
